@@ -545,7 +545,7 @@ class Chopper:
         disk_chopper._source_phase_factor(pulse_frequency)
         rotations_per_pulse = (
             abs(disk_chopper.frequency)
-            / pulse_frequency.to(unit=disk_chopper.frequency.unit)
+            / pulse_frequency.to(unit=disk_chopper.frequency.unit, dtype='float64')
         ).value
         # Rotate the chopper for as many full turns as needed to cover npulses.
         # Repeating the openings of a single pulse with an offset of one pulse
